@@ -198,8 +198,8 @@ Section Ecb.
         by (apply fits_true; lia).
       ev_checks. do 2 eexists; split; [reflexivity|].
       rewrite map2_enc1.
-      match goal with |- context [firstn ?a ?l ++ ?s ++ skipn (?a + ?b) ?l] =>
-        change (firstn a l ++ s ++ skipn (a + b) l) with (csplice a b s l) end.
+      try (match goal with |- context [firstn ?a ?l ++ ?s ++ skipn (?a + ?b) ?l] =>
+        change (firstn a l ++ s ++ skipn (a + b) l) with (csplice a b s l) end).
       rewrite done_upto_read by lia. rewrite done_upto_group by lia.
       replace (S j * c_w C) with (j * c_w C + c_w C) by lia. reflexivity.
     - rewrite He, HP. clear He HP. cbv beta iota. rewrite Nat.add_0_l.
@@ -237,8 +237,8 @@ Section Ecb.
         unfold dummy_cell in F4.
         ev_checks. do 2 eexists; split; [reflexivity|].
         change {| alias := false; cin := []; cout := [] |} with dummy_cell.
-        match goal with |- context [firstn ?a ?l ++ ?s ++ skipn (?a + ?b) ?l] =>
-          change (firstn a l ++ s ++ skipn (a + b) l) with (csplice a b s l) end.
+        try (match goal with |- context [firstn ?a ?l ++ ?s ++ skipn (?a + ?b) ?l] =>
+          change (firstn a l ++ s ++ skipn (a + b) l) with (csplice a b s l) end).
         rewrite !Er1. rewrite !done_upto_nth by lia.
         change (wr_out (nth i T dummy_cell) (c_E C (rd_in (nth i T dummy_cell)))) with (enc1 (nth i T dummy_cell)).
         rewrite done_upto_cell by lia.
@@ -309,8 +309,8 @@ Section EcbDec.
         by (apply fits_true; lia).
       ev_checks. do 2 eexists; split; [reflexivity|].
       rewrite map2_dec1.
-      match goal with |- context [firstn ?a ?l ++ ?s ++ skipn (?a + ?b) ?l] =>
-        change (firstn a l ++ s ++ skipn (a + b) l) with (csplice a b s l) end.
+      try (match goal with |- context [firstn ?a ?l ++ ?s ++ skipn (?a + ?b) ?l] =>
+        change (firstn a l ++ s ++ skipn (a + b) l) with (csplice a b s l) end).
       rewrite done_upto_read by lia. rewrite done_upto_group by lia.
       replace (S j * c_w C) with (j * c_w C + c_w C) by lia. reflexivity.
     - rewrite He, HP. clear He HP. cbv beta iota. rewrite Nat.add_0_l.
@@ -348,8 +348,8 @@ Section EcbDec.
         unfold dummy_cell in F4.
         ev_checks. do 2 eexists; split; [reflexivity|].
         change {| alias := false; cin := []; cout := [] |} with dummy_cell.
-        match goal with |- context [firstn ?a ?l ++ ?s ++ skipn (?a + ?b) ?l] =>
-          change (firstn a l ++ s ++ skipn (a + b) l) with (csplice a b s l) end.
+        try (match goal with |- context [firstn ?a ?l ++ ?s ++ skipn (?a + ?b) ?l] =>
+          change (firstn a l ++ s ++ skipn (a + b) l) with (csplice a b s l) end).
         rewrite !Er1. rewrite !done_upto_nth by lia.
         change (wr_out (nth i T dummy_cell) (c_D C (rd_in (nth i T dummy_cell)))) with (dec1 (nth i T dummy_cell)).
         rewrite done_upto_cell by lia.
